@@ -76,6 +76,13 @@ OBS = {"main": {"sources": MC + ["checks/obs.c"], "modes": ["c07", "c19"]}}
 PROTO = {"main": {"sources": MC + ["checks/proto.c"], "modes": ["c02", "c03", "c09"]}}
 
 PROPS = {
+    "C11": {
+        "engine": "sweep",
+        "builds": {"main": {"sources": MC + ["checks/c11.c"]}}, "runs": lambda tier: [("main", [])], "level": "exploration",
+        "technique": "exhaustive layout enumeration of derive_session_event (built without LLTD_TESTING): every station count 0..240 x every position of the own address + absent + wrong-stride decoys x 6 session-table shapes x 2 buffer sizes; all 256 opcodes x 3 destinations",
+        "rule": "one evaluation = one call of the real classifier on a harness-built frame; distinct_nontrivial counts distinct (result, listed?, table shape) outcomes",
+        "assumptions": ["empty station list: classification unconstrained (acknowledging or not)", "with a NULL own address only memory safety is demanded"],
+    },
     "C16": {
         "builds": {"main": {"sources": MC + ["checks/table.c"]}}, "runs": c16_runs, "level": "model_checking",
         "technique": "explicit-state BFS to fixpoint over the real 16-slot session table (time-abstracted key) from the empty table and 40 near-full start layouts, product with a dictionary model checked after every operation",
